@@ -30,7 +30,16 @@ static std::string next_outcome(const char *src) {
   auto &q = g_rngdev.script[cur_task()][src];
   if (q.empty()) return "ok";
   std::string o = q.front();
-  if (!o.empty() && o.back() == '*') return o.substr(0, o.size() - 1);   // pinned for the rest of the op
+  if (!o.empty() && o.back() == '*') {   // pinned for the rest of the op ...
+    // ... but not for ever: no signal storm or broken device outlasts a loop that keeps asking.  After 64 consecutive
+    // calls an interrupted/would-block primitive goes through, and any other pinned outcome becomes a hard EIO - so a
+    // tree that retries EINTR without a bound (common practice) terminates, and one that loops on hard errors too is
+    // left to the watchdog.
+    int &n = g_rngdev.pinned_served[cur_task()][src];
+    std::string k = o.substr(0, o.size() - 1);
+    if (++n > 64) return (k == "eintr" || k == "eagain") ? "ok" : "eio";
+    return k;
+  }
   q.erase(q.begin());
   return o;
 }
